@@ -6,7 +6,7 @@ open FinVerif.Model.C19
 
 instance : NatCast Float := ⟨Float.ofNat⟩
 
-def opsF : Ops Float := ⟨Float.exp, Float.log, Float.sqrt, fmax, 2.0, 4.0, 0.5, 0.25, 1e-8, 99999.0⟩
+def opsF : Ops Float := ⟨Float.exp, Float.log, Float.sqrt, fmax, 2.0, 4.0, 0.5, 0.25, 1e-8, 99999.0, Float.abs, 1e-12⟩
 
 /-- split `xs` into consecutive blocks of length `n` (as many as fit) -/
 def chunks (n : Nat) (xs : List Float) : List (List Float) :=
@@ -16,6 +16,13 @@ def chunks (n : Nat) (xs : List Float) : List (List Float) :=
     | 0 => acc.reverse
     | fuel + 1 => if xs.length < n then acc.reverse else go fuel (xs.drop n) (xs.take n :: acc)
   go (xs.length / n + 1) xs []
+
+/-- Python `int(x)` for a non-negative double. -/
+def truncNat (x : Float) : Nat := x.toUInt64.toNat
+
+/-- number of observations `_value_mc_fast_numba` simulates: `n`, or `int(n*t/tau+0.5)+1` inside the period -/
+def asianNAdj (t0 t tau : Float) (n : Nat) : Nat :=
+  if t0 < 0 then truncNat (Float.ofNat n * t / tau + 0.5) + 1 else n
 
 def pairs : List Float → List (Float × Float)
   | a :: b :: rest => (a, b) :: pairs rest
